@@ -68,6 +68,24 @@ def access_obligations(s: Struct, inv):
     return obs
 
 
+def enum_obligations(e: Enum, inv):
+    """C07/C10: the conversion API of a bitenum has the shape its exhaustiveness declares: `Self` for exhaustive = true,
+    `Result<Self, storage>` otherwise (conditional enums must stay fallible), both `pub const fn`"""
+    fns = impl_fns(inv).get((e.name, None), {})
+    obs = []
+    rv, nw = fns.get("raw_value"), fns.get("new_with_raw_value")
+    ok = rv is not None and rv["const"] and rv["vis"] == "pub" and (nows(rv["ret"]) == f"u{e.bits}" or f"UInt::<{e.holder},{e.bits}" in nows(rv["ret"]))
+    obs.append((f"{e.name}/raw_value-signature", ok, None if ok else f"raw_value: {rv}"))
+    if e.is_exhaustive:
+        want = ("Self", e.name)
+    else:
+        want = (f"Result<Self,{e.holder}>", f"Result<{e.name},{e.holder}>")
+    ok = nw is not None and nw["const"] and nw["vis"] == "pub" and nows(nw["ret"]) in want
+    obs.append((f"{e.name}/new_with_raw_value-returns-{want[0]}", ok,
+                None if ok else f"new_with_raw_value of an enum declared exhaustive = {e.exhaustive} returns `{nw and nw['ret']}` (const: {nw and nw['const']}); expected {want[0]}"))
+    return obs
+
+
 def builder_obligations(s: Struct, inv):
     """C14: builder() offered exactly when sound; exact mask chain; build() only on the final mask"""
     fns = impl_fns(inv)
